@@ -361,6 +361,18 @@ pub fn pll_gain(rng: &mut Rng) -> i32 {
 
 // ------------------------------------------------------------------ lowpass
 fn fam_lowpass(rng: &mut Rng, n: usize, out: &mut Out) {
+    // Filter::set / Filter::get (set writes the position word only, for both orders)
+    for i in 0..(n / 50 + 8) {
+        let (s0, s1, x) = (if i % 3 == 0 { 0 } else { rng.i64() }, rng.i64(), rng.i32());
+        let mut a = Lowpass::<1>::verif_from_raw([s0]);
+        out.emit(&format!("lp_get {}", s0), Some(idsp::Filter::get(&a).to_string()));
+        idsp::Filter::set(&mut a, x);
+        out.emit(&format!("lp_set {} {}", s0, x), Some(a.verif_raw()[0].to_string()));
+        let mut b = Lowpass::<2>::verif_from_raw([s0, s1]);
+        assert!(idsp::Filter::get(&b) == idsp::Filter::get(&Lowpass::<1>::verif_from_raw([s0])));
+        idsp::Filter::set(&mut b, x);
+        assert!(b.verif_raw() == [a.verif_raw()[0], s1], "Lowpass<2>::set writes state[0] only");
+    }
     let mut done = 0;
     while done < n {
         let len = 1 + rng.below(50) as usize;
@@ -530,6 +542,12 @@ macro_rules! cic_run {
 }
 
 fn fam_cic(rng: &mut Rng, n: usize, out: &mut Out, dec: bool) {
+    // tick(): true iff the next call is a sample-taking / emitting one (index == 0)
+    for i in 0..40u32 {
+        let (rate, idx) = (rng.below(64) as u32, if i % 3 == 0 { 0 } else { rng.below(70) as u32 });
+        let c = Cic::<i32, 2>::verif_from_raw(rate, idx, 0, [0; 2], [0; 2]);
+        out.emit(&format!("cic_tick {} {}", rate, idx), Some(c.tick().to_string()));
+    }
     let mut done = 0;
     while done < n {
         let len = 1 + rng.below(80) as usize;
@@ -740,6 +758,14 @@ macro_rules! bq_hist {
 }
 
 fn fam_biquad(rng: &mut Rng, n: usize, out: &mut Out) {
+    macro_rules! special {
+        ($t:ty, $w:expr, $q:expr) => {{
+            let k = rng.int($w) as $t;
+            let sh = |b: &Biquad<$t>| format!("{} {} {} {} {} {} {} {}", b.ba()[0], b.ba()[1], b.ba()[2], b.ba()[3], b.ba()[4], b.u(), b.min(), b.max());
+            out.emit(&format!("bq_special {} {} {}", $w, $q, k), Some(format!("{} {} {}", sh(&Biquad::<$t>::IDENTITY), sh(&Biquad::<$t>::HOLD), sh(&Biquad::<$t>::proportional(k)))));
+        }};
+    }
+    for _ in 0..4 { special!(i8, 8, 6); special!(i16, 16, 14); special!(i32, 32, 30); special!(i64, 64, 62); }
     let mut done = 0;
     while done < n {
         let len = 1 + rng.below(30) as usize;
@@ -1069,6 +1095,8 @@ macro_rules! hbf_stage {
         match rng.below(4) {
             0 => {
                 let mut h = HbfDec::<f32, M, N>::new(taps);
+                out.emit(&format!("hbf_bmax 0 {} {}", N, M), Some(h.block_size().1.to_string()));
+                out.emit(&format!("hbf_bmax 1 {} {}", N, M), Some(HbfInt::<f32, M, N>::new(taps).block_size().1.to_string()));
                 out.emit(&format!("hbf_new {} 0 {} {}", $id, N, list(&tb)), Some("ok".into()));
                 let (g, mx) = h.block_size();
                 let total = g * rng.below(3 * mx as u64 / g as u64 + 1) as usize;
